@@ -33,7 +33,7 @@ PARAMS = {
     "Polyline": ["vertices", "current"], "Dipole": ["moment"],
 }
 FORMS = ["top", "method", "sensor", "lists", "src_coll", "sens_coll", "mixed_coll", "func_n", "func_single",
-         "func_nopose", "func_magnetization", "core", "dataframe", "polyline_segments", "sensor_path", "func_inout"]
+         "func_nopose", "func_magnetization", "core", "dataframe", "polyline_segments", "sensor_path", "func_inout", "multi"]
 
 
 def plan(tier):
@@ -69,8 +69,20 @@ def gen_case(rng, classes):
             if rng.random() < 0.4:
                 obs[i] = G.to_global(inst[i], interior_point(inst[i]))[0]
     obs = obs.tolist()
-    return {"cls": cls, "instances": inst, "observers": obs, "field": str(rng.choice(list("BHJM"))),
-            "form": str(rng.choice(FORMS)), "squeeze": bool(rng.random() < 0.5)}
+    form = str(rng.choice(FORMS))
+    field = str(rng.choice(list("BHJM")))
+    if form == "multi":
+        n = max(n, 2)
+        if rng.random() < 0.3:
+            # user-defined sources, each with its OWN field function, in one call
+            cls, field = "CustomSource", str(rng.choice(list("BH")))
+            inst = [objs.rand_custom(rng) for _ in range(n)]
+        else:
+            while len(inst) < n:
+                inst.append(dict(inst[0], position=(rng.normal(size=(1, 3)) * 1.5).tolist()))
+        obs = (rng.normal(size=(n, 3)) * 2.5).tolist()
+    return {"cls": cls, "instances": inst, "observers": obs, "field": field,
+            "form": form, "squeeze": bool(rng.random() < 0.5)}
 
 
 def func_kwargs(cls, specs, single):
@@ -331,6 +343,29 @@ def check_case(ctx, case):
                 ref = np.array(refl)
                 case = {**case, "instances": [s0], "sensor_path_kind": kind}
                 ctx.count("sensor_path:" + kind)
+            elif form == "multi":
+                # all instances in ONE call: entry [l, i] of every interface is the field of source l alone at
+                # observer i; sumup / Collection forms are the sum over l of those
+                with quiet():
+                    single = np.array([[np.asarray(getattr(objs.build(sp), "get" + F)(np.array(o))) for o in O] for sp in specs])
+                objs_l = [objs.build(sp) for sp in specs]
+                sens_l = [magpy.Sensor(position=o) for o in O]
+                variant = ["list_pos", "list_sens", "sumup", "collection", "collection_sens", "sens_method"][
+                    int(round(abs(O[0][0]) * 1e6)) % 6]
+                ctx.count("multi:" + variant)
+                if variant == "list_pos":
+                    got, ref = np.asarray(get(objs_l, O, squeeze=False))[:, 0, 0], single
+                elif variant == "list_sens":
+                    got, ref = np.asarray(get(objs_l, sens_l, squeeze=False))[:, 0, :, 0], single
+                elif variant == "sumup":
+                    got, ref = np.asarray(get(objs_l, O, sumup=True, squeeze=False))[0, 0, 0], single.sum(axis=0)
+                elif variant == "collection":
+                    got, ref = np.asarray(getattr(magpy.Collection(*objs_l), "get" + F)(O, squeeze=False))[0, 0, 0], single.sum(axis=0)
+                elif variant == "collection_sens":
+                    got = np.asarray(getattr(magpy.Collection(*objs_l, *sens_l), "get" + F)(squeeze=False))[0, 0, :, 0]
+                    ref = single.sum(axis=0)
+                else:
+                    got, ref = np.asarray(getattr(sens_l[0], "get" + F)(*objs_l, squeeze=False))[:, 0, 0, 0], single[:, 0]
             elif form == "core":
                 got = core_eval(case)
                 if got is None:
@@ -343,7 +378,7 @@ def check_case(ctx, case):
     ctx.count("form:" + form)
     ctx.count("cls:" + cls)
     ctx.evaluated(case, nontrivial=(form not in ("top", "method") or n > 1), n=n)
-    fl = max(tol.floor_abs(s, F) for s in case["instances"])
+    fl = max(tol.floor_abs(s, F) for s in case["instances"]) * (len(case["instances"]) if form == "multi" else 1)
     rt = 1e-9 if form != "core" else 1e-7
     ok, w = tol.close_a(got, ref, fl * (1 if form != "core" else 10), rtol=rt)
     if not ok:
